@@ -137,6 +137,7 @@ void  mark_shared_ro_all();                      // every live block becomes sha
 void  clear_shared_ro_all();
 uint64_t digest_shared();                        // content digest of every shared read-only block
 uint64_t steps_now();                            // simulated time
+size_t   stack_hwm();                            // deepest stack use of any task of this run so far (bytes)
 size_t live_lib_blocks();
 // reports a "leak" violation (with the allocating functions) if library blocks are still live; call when every
 // library object of the run has been destroyed
